@@ -129,6 +129,13 @@ def handle (op : String) (fs : List (String × String)) : String :=
     match getInt fs "rise", getInt fs "run" with
     | some rise, some run => let p := Caret.norm rise run; s!"{p.1},{p.2}"
     | _, _ => "bad-case"
+  else if op == "metrics.caretrt" then
+    -- the property itself: a slope pair in lowest terms survives Decode∘Encode∘Decode unchanged
+    match getInt fs "rise", getInt fs "run" with
+    | some rise, some run =>
+      if Int.gcd rise run == 1 && rise != -32768 && run != -32768 && !Caret.isTie rise run
+      then s!"{rise},{run}" else "n/a"
+    | _, _ => "bad-case"
   else if op == "metrics.hheaderived" then
     match (getField fs "w").bind parseInts, (getField fs "ext").bind parseRects,
           (getField fs "lsb").bind parseInts, getHex fs "hhea" with
